@@ -3,3 +3,13 @@ open ZCV.Props.C03
 #print axioms C03_keyvalue_rx_spec
 #print axioms C03_section_rx_spec
 #print axioms C03_classify_eq_spec
+#print axioms C03_accept_iff_nested
+#print axioms C03_events_preorder
+#print axioms C03_tree_unique
+#print axioms C03_reject_is_syntax
+#print axioms C03_completable_mono
+#print axioms C03_first_bad_line_unique
+#print axioms C03_item_never_breaks
+#print axioms C03_bad_line_breaks
+#print axioms C03_closer_ok_iff_innermost
+#print axioms C03_unclosed_shape
